@@ -6,7 +6,7 @@ import loader, models, interp
 from interp import Machine, SliceRef, RStr, Ptr, Struct, Enum, Opaque, BoxObj, VecObj, Tuple, Unsupported, RustPanic, PathAbort, UNIT
 from reference import ref_parse, Reject
 
-VOCAB = ["-H", "-L", "-P", "-O2", "--", "a", "./b/", "-", "..", "!", "(", "-print", "-true", "-quit", "-bogus"]
+VOCAB = ["-H", "-L", "-P", "-O2", "--", "a", "./b/", "-", "..", "(old)", "!keep", "!", "(", "-print", "-true", "-quit", "-bogus"]
 FLAGS = {"-H": "Roots", "-L": "Always", "-P": "Never", "-O2": None}
 
 
